@@ -66,6 +66,53 @@ def edgeTerms {N : Type} (key : Nat × Nat) (tc : Tri × Option (N × N × N × 
     (if sortedPair tc.1.a tc.1.b = key then [n] else []) ++ (if sortedPair tc.1.a tc.1.c = key then [n] else [])
       ++ (if sortedPair tc.1.b tc.1.c = key then [n] else [])
 
+/-! ### `TriMesh::triangle_normal_constraints` (FIX_INTERNAL_EDGES) -/
+
+/-- nalgebra `Unit::try_new(v, min_norm)` (`try_new_and_get`): `sq_norm > min_norm * min_norm`, then every component is
+divided by `sq_norm.sqrt()` -/
+def tryUnit (v : V3 K) (minNorm : K) : Option (V3 K) :=
+  let sq := v.normSq
+  if sq > minNorm * minNorm then some (v.sdiv (Num.sqrt sq)) else none
+
+/-- `TrianglePseudoNormals { face, edges }` -/
+structure TriPN (K : Type) where
+  face : V3 K
+  e0 : V3 K
+  e1 : V3 K
+  e2 : V3 K
+
+/-- result of `triangle_normal_constraints(i)`; `panic`: `self.indices[i]`, `self.vertices[..]` or
+`edges_pseudo_normal[i]` is out of bounds -/
+inductive TncRes (K : Type) where
+  | panic
+  | ret (r : Option (TriPN K))
+
+/-- `TriMesh::triangle_normal_constraints(i)` (3-D), in program order: the flag test
+(`flags.contains(FIX_INTERNAL_EDGES)`, i.e. bit 7 AND `MERGE_DUPLICATE_VERTICES`), `self.triangle(i)`, the cached
+pseudo-normals (`?`), the entry of triangle `i`, then `triangle.normal()?` (`Unit::try_new(scaled_normal, f64::EPSILON)`)
+and the three `Unit::try_new(edge pseudo-normal, 1.0e-6)?` -/
+def triangleNormalConstraints (s : Mesh (V3 K) (V3 K)) (i : Nat) : TncRes K :=
+  if s.flags.fix7 && s.flags.merge then
+    match s.indices[i]? with
+    | none => .panic
+    | some t =>
+      match triCoords s.vertices t with
+      | none => .panic
+      | some (a, b, c) =>
+        match s.pn with
+        | none => .ret none
+        | some pn =>
+          match pn.edges[i]? with
+          | none => .panic
+          | some e =>
+            .ret (do
+              let face ← tryUnit ((b.sub a).cross (c.sub a)) epsK
+              let e0 ← tryUnit e.1 (lit 1 1000000)
+              let e1 ← tryUnit e.2.1 (lit 1 1000000)
+              let e2 ← tryUnit e.2.2 (lit 1 1000000)
+              pure ⟨face, e0, e1, e2⟩)
+  else .ret none
+
 end PNK
 end TM
 end Model
